@@ -94,6 +94,9 @@ UNITS = [
 from contracts.adapt_arms import arms_units  # noqa: E402
 UNITS = UNITS + arms_units("C02")
 
+from contracts.check_type import check_type_unit  # noqa: E402
+UNITS.append(check_type_unit("C02"))
+
 VERIFIED_CALLEES = ("adapt_typehints",)
 LEVEL = "other"
 TECHNIQUE = "contract-based deductive verification (VCs from the real AST of the Union arm, recursion by contract) + bounded run-time contract checking against an independent structural validator"
